@@ -246,6 +246,7 @@ def run_shard(acc, prop, tier, seed, shard, nshards, **kw):
     srv = Server()
     try:
         n = 11 if tier == "quick" else 1200
+        rw = None
         for wi in range(n):
             from .. import core as _core
             if _core.skip_world(wi):
@@ -256,7 +257,7 @@ def run_shard(acc, prop, tier, seed, shard, nshards, **kw):
                 continue
             rw = run_registry(acc, srv, (seed, PROP, tier, shard, wi), rng.choice([25, 40, 60, 90]))
         # canary: a record whose lookup is pointed at another pair must be flagged
-        if len(rw.order) >= 2:
+        if rw is not None and len(rw.order) >= 2:
             k1, k2 = rw.order[0], rw.order[1]
             fake = dict(rw.model[k1], addr=rw.model[k2]["addr"])
             if check_record(rw, Acc(), k1, fake, {}):
